@@ -245,6 +245,31 @@ CLAIMED = {
         "maps.ellipse_indices (input of the model), truncation error of the 0.01 % finite "
         "difference.",
    technique='Lean 4 sums over an ordered field + real log/exp for the log average, list induction for merge and slots; float / recorded-call correspondence'),
+ 'C20': dict(
+   text="Proof (Lean 4, any linear order of frequencies, any value type): model Fou of the "
+        "Fourier bookkeeping (coarse set for the three option cases, the index groups, the data "
+        "flow of interpolate with spline and PCHIP as parameters) and of the option state machine. "
+        "Theorems: for fmin <= fmax every frequency is in exactly one of below / in band / above "
+        "(and the hypothesis is necessary); computed frequencies lie in the band and in the coarse "
+        "set; without options computed = required in-band frequencies; every_x_freq gives a "
+        "sub-sequence; value written at each required position (closed form); zero above the "
+        "band; data are passed through unchanged, in order, exactly when coarse = required (then "
+        "computed and required in-band frequencies coincide); in the spline branch coincident "
+        "frequencies keep their datum if the spline interpolates its nodes; below the band the "
+        "value is the PCHIP interpolant through the computed data plus the anchor, whose real part "
+        "stays at the lowest computed value if the interpolant is constant on a flat first "
+        "interval; input_freq and every_x_freq are never both in effect after any sequence of "
+        "constructor / setter operations. Tie to code: Fourier attributes and the recorded SciPy "
+        "interpolator calls vs the model for generated times / bands / signals / transforms / "
+        "options; setter sequences; interpolate vs independent SciPy calls and the shape monitors "
+        "on random spectra; freq2time with empymod.model.tem wrapped vs a direct call.",
+   design='§4 C20',
+   note=TB % 'c20' + "Modelled not verified: empymod.utils.check_time (supplies freq_required), "
+        "empymod.model.tem (reference transform), SciPy's spline and PCHIP (hypotheses: interpolate "
+        "their nodes; constant on a flat first interval; monotone on monotone data - monitored on "
+        "every generated spectrum). Standard DLF (pts_per_dec = 0) is outside the property's "
+        "quantifier (2-D frequency array).",
+   technique='Lean 4 order-theoretic case analysis + list lemmas over a generic linear order; attribute / recorded-call correspondence'),
  'C02': dict(
    text="Proof (Lean 4, over an arbitrary field K, all grid sizes/widths/coefficients/fields): the "
         "model Emg.amat of core.amat_x equals on every interior edge the assembled operator "
